@@ -18,6 +18,7 @@ type vAppendCase struct {
 	flushed0  uint64
 	pre       [][]byte
 	avail     int
+	script    []byte // the carried entries as they appear on the wire after the request header
 }
 
 // vAppendSetup builds follower state (log of L entries) and a request carrying E entries, avail of which arrive.
@@ -66,7 +67,8 @@ func vAppendSetup(L, E int, withLC bool) *vAppendCase {
 			script.Write(vEncodeEntry(e))
 		}
 	}
-	c.conn, _ = vMkConn(script.Bytes())
+	c.script = script.Bytes()
+	c.conn, _ = vMkConn(c.script)
 
 	// LogMatching(F, X): wherever F and the sender agree on (index, term) they agree on content and on everything before
 	last := r.lastLogIndex
